@@ -1,19 +1,35 @@
 /- GENERATED: instance obligations for one logic, discharged by kernel evaluation.
-   `X ⊆ known`: every failing row is a committed known finding (Ptx/Gen/Known.lean). -/
+   `S` = the logic with its DOCUMENTED tables (Ptx/Sem/Spec.lean); rules, closure, trunk and frames
+   are what the translator read off the code.  `X ⊆ known`: every failing row is a committed
+   known finding (Ptx/Gen/Known.lean, generated from known_findings.json). -/
 import Ptx.Gen.L_KK3W
 import Ptx.Gen.Known
 import Ptx.Sem.Subset
+import Ptx.Props.C01
+import Ptx.Gen.L_K3W
 namespace Ptx.Gen.Obl.KK3W
 open Ptx
 
-theorem tables_total : Gen.KK3W.tablesTotalB = true := by decide +kernel
-theorem rules_exact : subsetB Gen.KK3W.badRules (Known.badRules "KK3W") = true := by decide +kernel
-theorem rules_sound : subsetB Gen.KK3W.unsoundRules (Known.unsoundRules "KK3W") = true := by decide +kernel
-theorem rules_total : subsetB Gen.KK3W.missingRules (Known.missingRules "KK3W") = true := by decide +kernel
-theorem rules_local : Gen.KK3W.nonLocalRules = [] := by decide +kernel
-theorem closure_total : Gen.KK3W.closureTotalB = true := by decide +kernel
-theorem closure_exact : subsetB Gen.KK3W.badClosure (Known.badClosure "KK3W") = true := by decide +kernel
-theorem read_total : Gen.KK3W.readTotalB = true := by decide +kernel
-theorem read_exact : subsetB Gen.KK3W.badRead (Known.badRead "KK3W") = true := by decide +kernel
+/-- a modal / first-order extension has exactly the truth-functional tables of its base (K3W) -/
+theorem base_tables : Gen.KK3W.tables.sameTF Gen.K3W.tables = true := by decide +kernel
+theorem spec_defined : Gen.KK3W.specDefinedB = true := by decide +kernel
+theorem tables_spec : subsetB Gen.KK3W.tableDiff (Known.tableDiff "KK3W") = true := by decide +kernel
+theorem defined_ops : Gen.KK3W.tables.definedOpsBad = [] := by decide +kernel
+theorem tables_total : Gen.KK3W.sem.tablesTotalB = true := by decide +kernel
+theorem rules_exact : subsetB Gen.KK3W.sem.badRules (Known.badRules "KK3W") = true := by decide +kernel
+theorem rules_sound : subsetB Gen.KK3W.sem.unsoundRules (Known.unsoundRules "KK3W") = true := by decide +kernel
+theorem rules_total : subsetB Gen.KK3W.sem.missingRules (Known.missingRules "KK3W") = true := by decide +kernel
+theorem rules_local : Gen.KK3W.sem.nonLocalRules = [] := by decide +kernel
+theorem closure_total : Gen.KK3W.sem.closureTotalB = true := by decide +kernel
+theorem closure_exact : subsetB Gen.KK3W.sem.badClosure (Known.badClosure "KK3W") = true := by decide +kernel
+theorem read_total : Gen.KK3W.sem.readTotalB = true := by decide +kernel
+theorem read_exact : subsetB Gen.KK3W.sem.badRead (Known.badRead "KK3W") = true := by decide +kernel
+theorem sound_core : Gen.KK3W.sem.soundCoreB = true := by decide +kernel
+
+/-- C01 for this logic: a closed tableau reached by any legal derivation has no countermodel. -/
+theorem c01_valid_sound (arg : Argument) (t : Tableau)
+    (hd : Deriv Gen.KK3W.sem.soundPart.noQuantPart (trunk Gen.KK3W.sem arg) t) (hclosed : t.allClosed = true)
+    (M : Struct) (hM : M.Interp Gen.KK3W.sem) (e : Env M.D) (w0 : M.W) : ¬ Countermodel Gen.KK3W.sem M e w0 arg :=
+  Props.C01.C01_valid_sound_partial Gen.KK3W.sem sound_core arg t hd hclosed M hM e w0
 
 end Ptx.Gen.Obl.KK3W
